@@ -199,7 +199,6 @@ func queries(targets []oid.ID) []query {
 		{"assoc!=x", mk(func(fs *object.SearchFilters) {
 			fs.AddFilter(attrAssociate, uni.OID(3).EncodeToString(), object.MatchStringNotEqual)
 		}), []string{attrAssociate}},
-		{"assoc-prefix", mk(func(fs *object.SearchFilters) { fs.AddFilter(attrAssociate, "", object.MatchCommonPrefix) }), []string{attrAssociate, object.FilterType}},
 		{"assoc-absent", mk(func(fs *object.SearchFilters) { fs.AddFilter(attrAssociate, "", object.MatchNotPresent) }), nil},
 		{"a=x", mk(func(fs *object.SearchFilters) { fs.AddFilter("a", "x", object.MatchStringEqual) }), []string{"a"}},
 		{"n>0", mk(func(fs *object.SearchFilters) { fs.AddFilter("n", "0", object.MatchNumGT) }), []string{"n"}},
@@ -406,11 +405,11 @@ func openView(path string, ep *stor.Epoch, addrs []oid.Address, targets []oid.ID
 		if err := db.SyncCounters(); err != nil {
 			fatalEnv("sync counters: %v", err)
 		}
-		cnt, _ := db.ObjectCounters()
-		v["counters-after-resync"] = fmt.Sprintf("%+v", cnt)
+		cnt, err := db.ObjectCounters()
+		v["counters-after-resync"] = fmt.Sprintf("%+v %s", cnt, errClass(err))
 		for c := 0; c < uni.NContainers; c++ {
-			info, _ := db.GetContainerInfo(uni.Cnr(c))
-			v[fmt.Sprintf("container-info-after-resync[c%d]", c)] = fmt.Sprintf("%+v", info)
+			info, err := db.GetContainerInfo(uni.Cnr(c))
+			v[fmt.Sprintf("container-info-after-resync[c%d]", c)] = fmt.Sprintf("%+v %s", info, errClass(err))
 		}
 	}
 	return v, ""
@@ -514,9 +513,9 @@ func TestC42Upgrade(t *testing.T) {
 			// not this property's business (C02): the incremental counters of the original differ
 			// from a recount; the upgrade resyncs, so compare with the recount instead
 			rec.Label("original-counters-differ-from-recount")
-			expect["counters"] = orig["counters-after-resync"] + " "
+			expect["counters"] = orig["counters-after-resync"]
 			for c := 0; c < uni.NContainers; c++ {
-				expect[fmt.Sprintf("container-info[c%d]", c)] = orig[fmt.Sprintf("container-info-after-resync[c%d]", c)] + " "
+				expect[fmt.Sprintf("container-info[c%d]", c)] = orig[fmt.Sprintf("container-info-after-resync[c%d]", c)]
 			}
 		}
 
@@ -599,14 +598,14 @@ func TestC42Upgrade(t *testing.T) {
 		if strings.Contains(fmt.Sprint(orig), "already-removed") {
 			lbls = append(lbls, "has-removed")
 		}
-		if strings.Contains(fmt.Sprint(orig), "expired") {
-			lbls = append(lbls, "has-expired-view")
+		for k, v := range orig {
+			if strings.HasPrefix(k, "exists:") && strings.HasSuffix(v, " expired") {
+				lbls = append(lbls, "has-expired-view")
+				break
+			}
 		}
 		if strings.Contains(fmt.Sprint(orig), "split-info") {
 			lbls = append(lbls, "has-split-parent")
-		}
-		if strings.Contains(orig["locked:"+""], "true") {
-			lbls = append(lbls, "has-locked")
 		}
 		for k, v := range orig {
 			if strings.HasPrefix(k, "locked:") && strings.HasPrefix(v, "true") {
@@ -614,11 +613,16 @@ func TestC42Upgrade(t *testing.T) {
 				break
 			}
 		}
-		if totalCalls[10] > 2*uni.NContainers {
+		if totalCalls[10] > 2*st10.Buckets {
 			lbls = append(lbls, "multi-batch")
 		}
-		nontrivial := st10.AssocPairs > 0 && applied > 0
-		rec.Case(nontrivial, fmt.Sprintf("%v|%v|%+v|%d|%v", ops, b, do, viewEpoch, fracs), lbls...)
+		_ = applied
+		nontrivial := st10.AssocPairs > 0
+		var opss []string
+		for _, o := range ops {
+			opss = append(opss, o.String())
+		}
+		rec.Case(nontrivial, fmt.Sprintf("%v|%v|%+v|%d|%v", opss, b, do, viewEpoch, fracs), lbls...)
 		if rec.WantSample() {
 			var s []string
 			for _, o := range ops {
